@@ -1,29 +1,68 @@
 package main
 
 import (
+	"encoding/json"
 	"flag"
 	"fmt"
 	"os"
 	"path/filepath"
+	"strings"
 
 	"rcheck/engine"
 	"rcheck/rules"
 )
 
 func main() {
-	prop := flag.String("property", "", "property id (C01…C20) or 'all'")
-	tier := flag.String("tier", "quick", "quick|thorough")
+	prop := flag.String("property", "", "property id (C01…C20)")
+	tier := flag.String("tier", "", "quick|thorough (default: $VERIF_TIER or quick)")
 	repo := flag.String("repo", "/repo", "repository working tree")
 	verif := flag.String("verif", "", "verif dir (default: parent of the binary's dir)")
+	overlay := flag.String("overlay", "", "go build style overlay JSON {\"Replace\":{path:file}} (used by the mutation catalogue)")
+	evdir := flag.String("evidence-dir", "", "write evidence/replay files here instead of <verif>/evidence")
+	tryPatch := flag.String("try-patch", "", "development helper: apply this patch through overlays and run the quick checks")
+	tryRev := flag.Bool("R", false, "with -try-patch: apply in reverse")
+	tryProps := flag.String("props", "", "with -try-patch: comma-separated property ids (default all)")
 	flag.Parse()
-	if t := os.Getenv("VERIF_TIER"); t != "" && *tier == "" {
-		*tier = t
+	if *tier == "" {
+		*tier = os.Getenv("VERIF_TIER")
+	}
+	if *tier != "thorough" {
+		*tier = "quick"
 	}
 	if *verif == "" {
 		exe, _ := os.Executable()
 		*verif = filepath.Dir(filepath.Dir(exe))
 	}
-	os.Exit(rules.Run(*prop, *tier, *repo, *verif, engine.LoadOpts{}))
+	if *tryPatch != "" {
+		var props []string
+		if *tryProps != "" {
+			props = strings.Split(*tryProps, ",")
+		}
+		os.Exit(rules.TryPatch(*tryPatch, *tryRev, props, *verif, *repo))
+	}
+	lo := engine.LoadOpts{}
+	if *overlay != "" {
+		b, err := os.ReadFile(*overlay)
+		if err != nil {
+			fmt.Println("CHECKER-BROKEN: cannot read overlay:", err)
+			os.Exit(2)
+		}
+		var ov struct{ Replace map[string]string }
+		if err := json.Unmarshal(b, &ov); err != nil {
+			fmt.Println("CHECKER-BROKEN: bad overlay:", err)
+			os.Exit(2)
+		}
+		lo.Overlay = map[string][]byte{}
+		for k, v := range ov.Replace {
+			c, err := os.ReadFile(v)
+			if err != nil {
+				fmt.Println("CHECKER-BROKEN: cannot read overlay file:", err)
+				os.Exit(2)
+			}
+			lo.Overlay[k] = c
+		}
+		engine.OverlayJSON = *overlay
+	}
+	engine.EvidenceDir = *evdir
+	os.Exit(rules.Run(*prop, *tier, *repo, *verif, lo))
 }
-
-var _ = fmt.Sprint
